@@ -33,6 +33,14 @@ def wide_fault_ops(alpha, tier):
         F.append(("update_badret", None, attr, pre, None, "db"))
         F.append(("update_badret", sel, attr, pre, None, "db"))
     F.append(("update_badret", None, "fields", "tags", None, "h:m"))
+    # a user function inside the *query* raises (on the tag value y; points before it in storage order have matched)
+    for call in ("update", "remove", "count", "contains", "get", "search", "select"):
+        F.append(("query_raise", call, alpha.y, None, "db"))
+    F.append(("query_raise", "update", alpha.y, "m", "db"))
+    F.append(("query_raise", "update", alpha.y, None, "h:m"))
+    F.append(("query_raise", "remove", alpha.y, "m", "db"))
+    F.append(("query_raise", "remove", alpha.y, None, "h:m"))
+    F.append(("query_raise", "update", alpha.x, None, "db"))
     for kind in ("update-no-attr", "update-non-query", "update-bad-unset", "update-bad-static-tags", "update-bad-static-time",
                  "select-bad-keys", "select-non-iterable", "search-non-query", "update_all-no-attr", "h.update-bad-fields"):
         F.append(("bad_args", kind))
@@ -59,7 +67,9 @@ class C11(E1Check):
             "BFS over histories of the standard alphabet; at every state every faulting call is executed: insert of a "
             "non-Point (4 kinds), insert_multiple with the non-Point at every position, update/update_all whose "
             "time|measurement|tags|fields callable raises on its k-th invocation (k=1..3) or returns an invalid value, "
-            "each also preceded by a successful attribute in the same call, invalid argument sets, handle variants. "
+            "each also preceded by a successful attribute in the same call, a user test function inside the QUERY that raises on "
+            "one tag value (update, remove and every read entry point; scoped, global, through a handle), invalid argument sets, "
+            "handle variants. "
             "Oracle: stored contents equal the reference (unchanged; insert_multiple: plus the prefix), a valid index "
             "equals a rebuild; a subset of the faults are BFS edges so that every later operation and the read/getter "
             "batteries run on states reached through a fault"
@@ -87,7 +97,7 @@ class C11(E1Check):
             return False
         if op[0] == "bad_insert_multiple" and len(contents) + len(op[1]) > cfg.get("N", self.bounds()["N"]):
             return False
-        if op[0] == "update_raise" and not W.fault_enabled(op, contents):
+        if op[0] in ("update_raise", "query_raise") and not W.fault_enabled(op, contents):
             return False
         if op[0] == "update_badret":
             return W.ref_apply(op, contents, self.alpha)[1] == ("exc",)
@@ -104,7 +114,10 @@ class C11(E1Check):
         counters["fault_transitions"] += 1
         exp, exp_out = T.ref()
         sig = f"C11|{k}|{self._detail(T.op)}|{T.cfg['storage']}|{'auto' if T.cfg['auto_index'] else 'manual'}"
-        if T.outcome[0] != "exc":
+        if T.outcome[0] != "exc" and k == "query_raise" and T.op[1] in ("get", "contains"):
+            # these may stop at a match stored in front of the point on which the user's function raises
+            counters["query_raise_not_reached"] += 1
+        elif T.outcome[0] != "exc":
             counters["fault_did_not_raise"] += 1
             out.append(viol("raises", sig + "|did-not-raise", observed=T.outcome, expected="an exception"))
             return out
@@ -124,6 +137,8 @@ class C11(E1Check):
             return f"attr={op[2]}|nth={'interrupt' if op[3] < 0 else ('1' if op[3] == 1 else '>1')}|pre={op[4]}|{'all' if op[1] is None else 'query'}"
         if k == "update_badret":
             return f"attr={op[2]}|pre={op[3]}"
+        if k == "query_raise":
+            return f"{op[1]}|scope={'all' if op[3] is None and op[4] == 'db' else 'measurement'}|via={'db' if op[4] == 'db' else 'handle'}"
         return op[1]
 
     def observe(self, w, stored, history, cfg, counters):
